@@ -49,6 +49,69 @@ def replay_sharded(binary, scripts, work, tag, flags):
     return out_path
 
 
+# ---- design checks (exhaustive TLC runs of the implementation-shaped model with the monitor as invariants) ----
+DESIGN = {
+    "C01": ["MC_mux_fmp4_va.cfg", "MC_mux_ll_va.cfg", "MC_mux_ts_va.cfg", "MC_mux_ll_a.cfg"],
+    "C02": ["MC_mux_fmp4_va.cfg", "MC_mux_ts.cfg", "MC_mux_ts_a.cfg", "MC_mux_ll_va.cfg"],
+    "C03": ["MC_mux_fmp4_va.cfg", "MC_mux_ll_va.cfg", "MC_mux_ts_va.cfg"],
+    "C04": ["MC_mux_fmp4_va.cfg", "MC_mux_ll_va.cfg", "MC_mux_ts_va.cfg", "MC_mux_ll_a.cfg"],
+    "C05": ["MC_mux_ll_va.cfg"],
+    "C16": [],
+    "C18": ["MC_mux_size.cfg", "MC_mux_ll_va.cfg", "MC_mux_ts_va.cfg"],
+    "C19": ["MC_mux_ll_a.cfg", "MC_mux_ll_va.cfg"],
+}
+DESIGN_DEEP = ["MC_mux_fmp4.cfg", "MC_mux_ll.cfg", "MC_mux_ts.cfg"]
+
+# model configurations used to generate write scripts with TLC (-simulate); ticks are milliseconds
+SIMS = {
+    "fmp4": ("Sim_mux_fmp4.cfg", {"variant": "fmp4", "tracks": [{"codec": "h264"}, {"codec": "opus"}], "segCount": 3,
+                                   "segMinMs": 60, "partMinMs": 50, "maxSize": 1000000, "disk": False}),
+    "ll": ("Sim_mux_ll.cfg", {"variant": "ll", "tracks": [{"codec": "h264"}, {"codec": "opus"}], "segCount": 7,
+                               "segMinMs": 80, "partMinMs": 50, "maxSize": 1000000, "disk": False}),
+    "mpegts": ("Sim_mux_ts.cfg", {"variant": "mpegts", "tracks": [{"codec": "h264"}, {"codec": "aac", "rate": 32000}], "segCount": 3,
+                                   "segMinMs": 60, "partMinMs": 50, "maxSize": 1000000, "disk": False}),
+}
+
+
+def design(pid, tier):
+    cfgs = list(DESIGN.get(pid, []))
+    if tier == "thorough":
+        cfgs += DESIGN_DEEP
+    st = tr = 0
+    done = []
+    for c in cfgs:
+        r = vlib.tlc_must_pass("MCHlsMuxer", c, timeout=1200)
+        st += r.distinct
+        tr += r.generated
+        done.append({"cfg": c, "states": r.distinct, "transitions": r.generated})
+    return st, tr, done
+
+
+def model_scripts(tier, rnd):
+    """Write scripts produced by TLC from the model (random walks through MCHlsMuxer), converted to real clocks."""
+    out = []
+    per = 60 if tier == "quick" else 700
+    for variant, (cfgfile, cfg) in SIMS.items():
+        # TLC's simulator keeps producing behaviours until stopped: give it a time budget and take the first `per`
+        r = vlib.tlc("MCHlsMuxer", cfgfile, timeout=(8 if tier == "quick" else 60), simulate="num=100000", depth=64,
+                     tlcseed=rnd.randint(1, 10**6), workers=4, quiet=True)
+        hs = vlib.hist_lines(r.out)
+        if not hs:
+            raise vlib.Inconclusive("no model behaviours from %s: %s" % (cfgfile, r.out[-1500:]))
+        rates = [muxgen.rate_of(t) for t in cfg["tracks"]]
+        for h in hs[:per]:
+            steps = []
+            for w in h:
+                t = w["t"] - 1
+                u = w["u"][0]
+                st = {"t": t, "dts": u["dts"] * rates[t] // 1000, "ra": u["ra"], "ps": u["ps"], "size": 10, "n": len(w["u"])}
+                steps.append(st)
+            c = dict(cfg)
+            c["disk"] = rnd.random() < 0.3
+            out.append({"cfg": c, "steps": steps})
+    return out
+
+
 def script_sets(pid, tier, rnd):
     q = tier == "quick"
     if pid in ("C01", "C02", "C03"):
@@ -95,8 +158,13 @@ def run(pid, tier, replay):
                 v.violation("%s fails on replay (%s)" % (inv, d), rp)
             return v.finish()
         rnd = random.Random(vlib.seed() * 1000003 + int(pid[1:]))
+        dstates, dtrans, ddone = design(pid, tier)
         sets = script_sets(pid, tier, rnd)
+        if pid in ("C01", "C02", "C03", "C04"):
+            flags = ["-noemit"] if pid == "C04" else []
+            sets.append(("model", model_scripts(tier, rnd), flags))
         lines = traces = states = nscripts = 0
+        conf_ok = conf_n = 0
         samples = []
         for tag, scripts, flags in sets:
             nscripts += len(scripts)
@@ -111,9 +179,18 @@ def run(pid, tier, replay):
             for inv, rp, d in tc.failures:
                 sig, what = signature(rp)
                 v.violation("%s on the real Muxer: %s (%s)" % (inv, what, d), rp, signature=sig)
+            # conformance of the implementation-shaped model (HlsMuxer.tla) on the same traces: evidence only
+            if tag in ("gen", "model", "td", "size", "grid", "cfgs") and "-probe" not in flags:
+                cc = vlib.validate_trace_parallel("MuxTrace", "Trace_mux_conf.cfg", tr, pid, tag=tag + "conf")
+                conf_ok += cc.conforming
+                conf_n += cc.traces
             os.remove(tr)
         cov = {
-            "states": states, "transitions": lines, "traces_validated_against_impl": traces,
+            "states": states + dstates, "transitions": lines + dtrans, "traces_validated_against_impl": traces,
+            "design": ddone,
+            "conformance": {"traces_followed_by_model": conf_ok, "traces_compared": conf_n,
+                            "note": "HlsMuxer.tla stepped with the recorded writes; MRender must equal what the real muxer served "
+                                    "(playlists and decoded fragments); divergence is spec drift, evidence only"},
             "scripts": nscripts, "trace_lines": lines, "samples": samples,
             "rule": "seeded random write scripts over variants x track sets x codecs x durations; every Write is followed by "
                     "a full observation (playlists, newly listed fragments decoded, probes, directory)",
